@@ -25,6 +25,12 @@ REALISTIC = ["http://tracker.example.net", "udp://open.tracker.org:6969/announce
 # names under which the metafile itself is stored, and what may lie beside it
 PATH_NAMES = ["m", "m.torrent", "m.TORRENT", "m.tor", "sub/m", "m.torrent.bak",
               ".torrent", "m.", "m 1", "d.torrent/m"]
+# values that look like bencoding, above all like the key that introduces the
+# info dictionary (they sit in keys sorting before and after `info`)
+BENCODEISH = ["http://t.example/4:info/announce", "info about it!", "4:info",
+              "d4:infod4:name1:xee", "4:infod", "e4:info", "i1e", "0:", "le"]
+
+
 def neighbours(d, fname):
     """Other metafiles lying around the given one (all inside d)."""
     stem = os.path.splitext(fname)[0]
@@ -50,7 +56,7 @@ def strings(tier):
             if s in (".", "..") or "/" in s and False:
                 continue
             out.append(s)
-    return out + REALISTIC
+    return out + REALISTIC + BENCODEISH
 
 
 def payload_tree(seed, single, small=False):
@@ -106,7 +112,8 @@ def build(version, name, s, ann, url, extra, seed, single, small=False):
         meta[b"info"][b"x-unknown"] = [b"\xff\xfe", 3, {b"k": b"\x80"}]
         meta[b"info"][b"source"] = model.u(s)
         meta[b"zz-top"] = b"\xc3"
-        meta[b"created by"] = b"ref"
+        meta[b"created by"] = b"ref " + model.u(s)
+        meta[b"comment"] = model.u(s)
     return bencode.encode(meta)
 
 
@@ -220,7 +227,8 @@ class MagnetCheck:
                     res.states += 1
                     for vr in reqs:
                         routes = ["lib"]
-                        if len(s) == 1 and extra in ("plain", "small"):
+                        if (len(s) == 1 or s in BENCODEISH) and \
+                                extra in ("plain", "small"):
                             routes.append("cli")
                         for route in routes:
                             probs = self.run_case(raw, vr, route, work)
@@ -319,7 +327,7 @@ class MagnetCheck:
         seed = g["seed"]
         files = [(("a",), world.content(seed, 0, 2 * P0 + 1)),
                  (("d", "b"), world.content(seed, 1, 5))]
-        for s in strings("quick")[:40]:
+        for s in strings("quick")[:40] + BENCODEISH:
             name = "n" + s.replace("/", "_")
             parent = world.fresh_dir()
             try:
